@@ -189,3 +189,69 @@ func Verif_C15_gate_sequence() {
 	verifapi.Assert("later-unauthorised-command-refused", err2 != nil)
 	verifapi.Assert("later-unauthorised-command-has-no-effect", verifapi.All(len(wk.w.activeUnits) == unitsMid, verifapi.FSOps() == opsMid, len(*cfo.messages) == 0, len(*cfo.streamed) == 0))
 }
+
+// Verif_C15_work_type_spelling: a submit over any connection whose work type is spelled differently
+// from the registered (signature-verifying or not) type "cmd" - another letter case, padding, any three
+// bytes. Whatever the node makes of the name, no unit of a verifying type may come into existence
+// unless the command was authorised (local Unix socket, or a valid token): the policy lookup and the
+// allocation must agree on which work type the name denotes.
+func Verif_C15_work_type_spelling() {
+	dir := verifapi.TempDir()
+	wk := verifWorkceptor(dir)
+	verifying := verifapi.Bool()
+	verifapi.Assert("register", wk.w.RegisterWorker("cmd", verifCmdCfg().NewWorker, verifying) == nil)
+	wk.w.VerifyingKey = "/keys/pub.pem"
+	thePub := &rsa.PublicKey{E: 65537}
+	verifapi.Redirect("github.com/ansible/receptor/pkg/certificates.LoadPublicKey", func(filename string, osw certificates.Oser) (*rsa.PublicKey, error) {
+		return thePub, nil
+	})
+	verifapi.Redirect("github.com/golang-jwt/jwt/v4.ParseWithClaims", func(tokenString string, claims jwt.Claims, keyFunc jwt.Keyfunc, options ...jwt.ParserOption) (*jwt.Token, error) {
+		if tokenString != "good" {
+			return nil, fmt.Errorf("signature is invalid")
+		}
+		rc := claims.(*jwt.RegisteredClaims)
+		rc.Audience = []string{"A"}
+		return &jwt.Token{Valid: true, Claims: claims}, nil
+	})
+	var name string
+	switch verifapi.Choose(7) {
+	case 0:
+		name = "Cmd"
+	case 1:
+		name = "CMD"
+	case 2:
+		name = "cmD"
+	case 3:
+		name = "cmd "
+	case 4:
+		name = " cmd"
+	case 5:
+		name = ""
+	case 6:
+		name = verifapi.String(3)
+	}
+	network := []string{"unix", "tcp", "netceptor-A"}[verifapi.Choose(3)]
+	sig := []string{"", "bad", "good"}[verifapi.Choose(3)]
+	cfg := map[string]interface{}{"command": "work", "subcommand": "submit", "node": []string{"A", "localhost"}[verifapi.Choose(2)], "worktype": name}
+	if sig != "" {
+		cfg["signature"] = sig
+	}
+	verifapi.FixRandom("unit0031", "unit0032")
+	unitsBefore := len(wk.w.activeUnits)
+	cfo := verifNewCFO(network)
+	cfo.stdin = []byte("in")
+	_, err := wk.verifCommand(cfo, cfg)
+	verifapi.Quiesce()
+	created := len(wk.w.activeUnits) > unitsBefore
+	if created {
+		verifapi.Cover("unit-created")
+		// which type did the node take the name for? (only "cmd" is registered)
+		authorised := verifapi.Any(network == "unix", sig == "good")
+		verifapi.Assert("unit-of-verifying-type-created-only-when-authorised", verifapi.Any(!verifying, authorised))
+		verifapi.Assert("token-refused-by-type-that-expects-none", verifapi.Any(verifying, sig == ""))
+	} else {
+		verifapi.Cover("no-unit")
+		verifapi.Assert("refusal-reported", err != nil)
+	}
+	verifapi.Assert("no-lock-left-held", verifapi.HeldLocks() == 0)
+}
